@@ -169,6 +169,7 @@ Init == l = 1
 Next == /\ l <= Len(Tr)
         /\ LET ev == Tr[l] IN
              CASE ev.e = "Simd" -> JudgeSimd(ev)
+               [] ev.e = "Sweep" -> TRUE         \* coverage record of a native full-range sweep (its candidate vectors are ordinary Simd events)
                [] ev.e = "Meta" -> TRUE          \* L2 binding data (declared mask width), compared with Mask.tla by the driver: drift, never a verdict
                [] ev.e \in {"Fault", "CompileFail"} -> \A k \in 1..Len(ev.outs) : Reject(l, ev.case, ev.outs[k].cfg)
         /\ l' = l + 1
